@@ -35,3 +35,27 @@ Theorem C09_key_deterministic :
     name_of c1 = name_of c2 -> ser c1 = ser c2 -> key call name_of ser H c1 = key call name_of ser H c2.
 Proof. exact key_deterministic. Qed.
 Print Assumptions C09_key_deterministic.
+
+(* ---- the file executor at point level (Model/FileExec.v: client, loop thread, one process per
+   started call, the cache directory; tied to the code by lockstep incl. several sessions and killed
+   processes).  Proofs/FileSafe.v.  Transitions: any step of any thread or process, or the kill
+   of a process from outside; initial directory fs0 arbitrary (whatever earlier runs left). ---- *)
+From EL Require Import Model.Exec Model.ExecInv Model.StepExec Model.FileExec Model.FileSpec Proofs.FileSafe.
+
+(* a completed result file (one that holds the output) is never deleted or changed by any step of
+   the file executor or its processes, nor by killing a process *)
+Theorem C09_file_mode_never_alters_completed_entry :
+  forall c n prog fs0 s s',
+    nocancel prog = true -> wf_prog n prog -> fs_wf fs0 ->
+    FileSafe.freach c (finit n prog fs0) s -> ftrans c s s' -> outs_kept (fsy s) (fsy s') = true.
+Proof. exact outs_never_altered. Qed.
+Print Assumptions C09_file_mode_never_alters_completed_entry.
+
+(* submitting a call whose result file exists starts no process: the future is registered and
+   later completed from the file *)
+Theorem C09_file_mode_hit_starts_nothing :
+  forall c s s' i k w,
+    fpc s = GListdir i k w -> fs_has (fsy s) (k, EOut) = true -> fstep c s TD = Some (s', LListdir) ->
+    fpc s' = GTd /\ fps s' = fps s /\ fsy s' = fsy s /\ assoc_key (mem s') k = Some i.
+Proof. exact no_rerun. Qed.
+Print Assumptions C09_file_mode_hit_starts_nothing.
